@@ -62,12 +62,13 @@ def minimise(mod, case, signature, max_calls=600):
 OUT = os.environ.get("VERIF_OUT_DIR", ROOT)   # scratch location for seeded-change evaluations
 
 
-def write_replay(prop, viol):
+def write_replay(prop, viol, tier=None, seed=None):
     d = os.path.join(OUT, "replays", prop)
     os.makedirs(d, exist_ok=True)
     body = jsonable({"property": prop, "signature": viol.get("signature"), "clause": viol.get("clause"),
                      "detail": viol.get("detail"), "case": viol.get("case"),
-                     "readable": viol.get("readable")})
+                     "readable": viol.get("readable"),
+                     "found_by": {"tier": tier, "seed": seed, "command": f"VERIF_SEED={seed} ./check {prop} {tier}"}})
     path = os.path.join(d, sha(body)[:16] + ".json")
     with open(path, "w") as f:
         json.dump(body, f, indent=1)
@@ -114,7 +115,7 @@ def run_check(prop, tier, seed):
         if "txs" in v.get("case", {}):
             from .monitors.ledger_core import brief
             v["readable"] = brief(v["case"]["txs"])
-        path = write_replay(prop, v)
+        path = write_replay(prop, v, tier, seed)
         new_viol.append({"signature": sig, "count": len(vs), "replay": path, "clause": v.get("clause"),
                          "detail": v.get("detail")})
         print(f"VIOLATION property={prop} replay={path}")
@@ -191,6 +192,11 @@ def run_replay(prop, path):
             print(f"{tag} property={prop} replay={path}")
             print(f"  signature={v.get('signature')} {str(v.get('detail'))[:800]}")
         return 1 if any(not known.match_open(prop, v.get("signature", "")) for v in vs) else 0
+    if isinstance(obs, dict) and "note" in obs:
+        fb = body.get("found_by") or {}
+        print(f"replay: cases of this kind (a process / session history) are re-observed by re-running the workload that "
+              f"produced them: {fb.get('command', './check ' + prop + ' quick')}  [{obs['note']}]")
+        return 2
     print(f"replay: no violation of {prop} on the current tree")
     return 0
 
